@@ -234,7 +234,7 @@ func ruleC05_2(c *Ctx) {
 	for _, tr := range tailRefs {
 		// keys[1:] is complete only against the reference under keys[0]
 		refOK := false
-		for _, call := range callsIn(f, "reflect.DeepEqual") {
+		for _, call := range c.equalityCalls(f) {
 			for _, a := range call.Common().Args {
 				if tr.isFirst(a) {
 					refOK = true
@@ -249,7 +249,7 @@ func ruleC05_2(c *Ctx) {
 			header := cl.header
 			isIter := cl.isElem
 			var eqM, eqP []*ssa.Call
-			for _, call := range callsIn(f, "reflect.DeepEqual") {
+			for _, call := range c.equalityCalls(f) {
 				cc := call.(*ssa.Call)
 				if !header.Dominates(cc.Block()) || !reaches(cc.Block(), header) {
 					continue
